@@ -2,14 +2,14 @@ from vlib.kengine import KJob
 ENGINE = "K"
 LEVEL = "other"
 KERNELS, HARNESS, TAG = "K_text.cpp", "K_text_h.c", "text"
-UNITS = ["Bpp/Text/TextTools.cpp", "Bpp/Io/FileTools.cpp", "Bpp/Exceptions.cpp"]
-API = ["k_isDecimalNumber", "k_isDecimalInteger", "k_isEmpty", "k_trim", "k_case", "k_resize", "k_removeBlocks", "k_removeChar", "k_split", "k_count", "k_startsEndsHas", "k_path", "k_toInt", "k_toDouble"]
+UNITS = ["Bpp/Text/TextTools.cpp", "Bpp/Io/FileTools.cpp", "Bpp/Exceptions.cpp", "Bpp/Text/KeyvalTools.cpp"]
+API = ["k_isDecimalNumber", "k_isDecimalInteger", "k_isEmpty", "k_trim", "k_case", "k_resize", "k_removeBlocks", "k_removeChar", "k_split", "k_count", "k_startsEndsHas", "k_path", "k_toInt", "k_toDouble", "k_singleKeyval"]
 LMAX = {"quick": 3, "thorough": 4}
-EXPLANATION = ("Bounded model checking of the real string utilities (engine K): TextTools.cpp, FileTools.cpp and Exceptions.cpp are compiled by clang together with extern \"C\" kernels, the LLVM IR (libstdc++'s std::string included) is lowered to C by the "
+EXPLANATION = ("Bounded model checking of the real string utilities (engine K): TextTools.cpp, FileTools.cpp, KeyvalTools.cpp and Exceptions.cpp are compiled by clang together with extern \"C\" kernels, the LLVM IR (libstdc++'s std::string included) is lowered to C by the "
                "translator in engine_k/ir2c.cpp and CBMC decides, for every byte string of each length and every option character / flag, all generated memory-safety, arithmetic, libstdc++-assertion and unwinding properties plus "
                "'no exception other than the library's type escapes'. Counterexamples are replayed natively (same harness source, recorded values) under ASan/UBSan.")
 FUNCTIONS = ["TextTools::{isEmpty,isDecimalNumber (char and string),isDecimalInteger,toInt,toDouble,removeSurroundingWhiteSpaces,removeFirstWhiteSpaces,removeLastWhiteSpaces,removeWhiteSpaces,removeNewLines,removeLastNewLines,toUpper,toLower,"
-             "resizeLeft,resizeRight,removeSubstrings (3-argument form),removeChar,split,count,startsWith,endsWith,hasSubstring}", "FileTools::{getFileName,getParent,getExtension}", "bpp::Exception constructor", "std::string members used by them (inlined libstdc++ code)"]
+             "resizeLeft,resizeRight,removeSubstrings (3-argument form),removeChar,split,count,startsWith,endsWith,hasSubstring}", "FileTools::{getFileName,getParent,getExtension}", "KeyvalTools::singleKeyval", "bpp::Exception constructor", "std::string members used by them (inlined libstdc++ code)"]
 BOUNDS = "all byte strings of length 0..3 (quick) / 0..4 (thorough; the costlier kernels stay at 0..3), patterns of length 0..2, every option character and flag, chunk sizes 1..3, target sizes 0..4; loop unwinding 10 with unwinding assertions (copy loops 24, or 100 where an exception message is built)"
 OUTSIDE = ["strings longer than 4 bytes", "tokenisers, key-value and option parsing, variable substitution, wildcard matching, tables, distribution / interval / formula readers (std::deque, std::map and iostream based: measured without verdict in the design phase)",
            "the numeric value returned by toInt/toDouble (iostream extraction is an opaque stub yielding an arbitrary value)", "split with chunk size 0 (divides by zero; CBMC gives no verdict within the budget)", "passing negative char values to std::isdigit/std::isspace (C-standard-level undefined behaviour no sanitizer confirms)"]
@@ -34,6 +34,7 @@ JOBS = [
     KJob("harness_split", range(0, 4), variants=[["NS=1"], ["NS=2"], ["NS=3"]], copy_unwind=100),
     KJob("harness_search", range(0, 3), variants=[["WHICH=%d" % w, "NP=%d" % p] for w in (0, 1) for p in (0, 1, 2)], desc="startsWith / endsWith"),
     KJob("harness_search", range(0, 3), variants=[["WHICH=2", "NP=1"], ["WHICH=3", "NP=1"]], timeout_s=400, desc="hasSubstring / count"),
+    KJob("harness_keyval", range(0, 4), copy_unwind=120, timeout_s=600, desc="single key=value splitting (raises the library's exception when the separator is missing)"),
     KJob("harness_path", range(0, 4), variants=[["WHICH=0"], ["WHICH=1"], ["WHICH=2"]], timeout_s=400, desc="path helpers"),
 ]
 def run(pid, tier):
